@@ -29,6 +29,8 @@ func checkC02(c *Ctx, r *Report) {
 	nativeListRule(c, r, a, "C02.NATIVE", "a root resolver that understands only its own containers reports length 0, so the root-resolver strategy returns an empty list where the interface and reflection strategies return the elements")
 	c02Pipe(c, r, a)
 	c02Promoted(c, r)
+	c02Layout(c, r, a)
+	c02SharedDefaults(c, r, a)
 	cacheVerdictRule(c, r, a, "C02.CACHE", "the reflection strategy then answers with an error (and null) for a node whose GraphQL type was first seen with another Go type, where the interface and root-resolver strategies answer with the data")
 }
 
@@ -538,4 +540,119 @@ func c02Promoted(c *Ctx, r *Report) {
 		}
 	}
 	r.floor("C02.PROMOTED", "Go field bindings taken from reflect.StructField", n, 1)
+}
+
+// c02Layout: a FieldDef belongs to a GraphQL field, not to one Go type. What it caches about the Go side must
+// hold for every Go type that can back the object type: a name or a method. A struct field's index or offset
+// is a fact about one struct layout; reading another struct through it yields another field.
+func c02Layout(c *Ctx, r *Report, a *Anchors) {
+	r.rule("C02.LAYOUT", "no value derived from reflect.StructField.Index / Offset is stored into a schema node, and the reflection resolver reads struct fields by name")
+	isSF := func(t types.Type) bool {
+		if p, ok := t.(*types.Pointer); ok {
+			t = p.Elem()
+		}
+		nm, ok := t.(*types.Named)
+		return ok && nm.Obj().Pkg() != nil && nm.Obj().Pkg().Path() == "reflect" && nm.Obj().Name() == "StructField"
+	}
+	n := 0
+	for _, fn := range c.allFns {
+		for _, b := range fn.Blocks {
+			for _, in := range b.Instrs {
+				st, ok := in.(*ssa.Store)
+				if !ok {
+					continue
+				}
+				fa, ok := st.Addr.(*ssa.FieldAddr)
+				if !ok {
+					continue
+				}
+				o, f := fieldOwner(fa.X.Type(), fa.Field)
+				if !schemaTypes[o] {
+					continue
+				}
+				layout := ""
+				var walk func(v ssa.Value, d int)
+				walk = func(v ssa.Value, d int) {
+					if d > 5 || layout != "" {
+						return
+					}
+					switch t := v.(type) {
+					case *ssa.Field:
+						if isSF(t.X.Type()) {
+							if nm := fieldName(t.X.Type(), t.Field); nm == "Index" || nm == "Offset" {
+								layout = nm
+							}
+						}
+					case *ssa.UnOp:
+						if fa2, ok := t.X.(*ssa.FieldAddr); ok && isSF(fa2.X.Type()) {
+							if nm := fieldName(fa2.X.Type(), fa2.Field); nm == "Index" || nm == "Offset" {
+								layout = nm
+							}
+						} else {
+							walk(t.X, d+1)
+						}
+					case *ssa.Slice:
+						walk(t.X, d+1)
+					case *ssa.Phi:
+						for _, e := range t.Edges {
+							walk(e, d+1)
+						}
+					case *ssa.Call:
+						if isBuiltinCall(t, "append") {
+							for _, x := range t.Call.Args {
+								walk(x, d+1)
+							}
+						}
+					case *ssa.Convert:
+						walk(t.X, d+1)
+					}
+				}
+				walk(st.Val, 0)
+				if layout == "" {
+					continue
+				}
+				n++
+				r.check("C02.LAYOUT", fmt.Sprintf("%s: %s.%s does not hold a struct layout fact", fnName(fn), o, f), st.Pos(), false,
+					"reflect.StructField."+layout+" of the first Go type seen is cached on the schema node: when one GraphQL type is backed by two Go structs with different layouts, the reflection strategy reads the wrong field of the second one while the other strategies answer correctly")
+			}
+		}
+	}
+	// the reader side: struct fields are read through FieldByName*
+	byName := false
+	if a.reflectRes != nil {
+		for _, ci := range callsIn(a.reflectRes) {
+			if f := calleeObj(ci); f != nil && f.Pkg() != nil && f.Pkg().Path() == "reflect" && (f.Name() == "FieldByName" || f.Name() == "FieldByNameFunc") {
+				byName = true
+			}
+		}
+		r.check("C02.LAYOUT", fnName(a.reflectRes)+": struct fields are read by name", a.reflectRes.Pos(), byName, "the reflection resolver does not read the bound Go field with FieldByName / FieldByNameFunc")
+	}
+	_ = n
+}
+
+// c02SharedDefaults: what a resolver receives for an omitted argument is decided by the shared argument
+// builder. A strategy-specific arm that consults the schema's default values itself hands its resolver
+// something the other strategies' resolvers do not get.
+func c02SharedDefaults(c *Ctx, r *Report, a *Anchors) {
+	r.rule("C02.DEFAULTS", "the strategy-specific code (reflection resolver, reflected-argument builder) never reads Arg.Default / InputField.Default: defaults reach resolvers through the shared argument builder or not at all")
+	n := 0
+	for _, fn := range []*ssa.Function{a.reflectRes, a.reflArgs} {
+		if fn == nil {
+			continue
+		}
+		n++
+		bad := token.NoPos
+		for _, b := range fn.Blocks {
+			for _, in := range b.Instrs {
+				if fa, ok := in.(*ssa.FieldAddr); ok {
+					if o, f := fieldOwner(fa.X.Type(), fa.Field); (o == "Arg" || o == "InputField") && f == "Default" {
+						bad = fa.Pos()
+					}
+				}
+			}
+		}
+		r.check("C02.DEFAULTS", fnName(fn)+": does not apply schema defaults on its own", firstPos(bad, fn.Pos()), !bad.IsValid(),
+			"this arm substitutes the declared default for an omitted argument although the shared argument builder does not: a reflected method is called with the default while the interface and root resolvers are called without the argument")
+	}
+	r.floor("C02.DEFAULTS", "strategy-specific argument code examined", n, 1)
 }
